@@ -1,1 +1,90 @@
 //! Differential-driver access to crate-private items (group: reserve). See /verif/DESIGN.md.
+//!
+//! Every function here only forwards to the production item; no logic is duplicated.
+#![allow(missing_docs, missing_debug_implementations, unreachable_pub)]
+
+use crate::delegated_safety::{ReserveJournalExt, ReservePlanner};
+use revm::{
+    Context, Database, MainBuilder, MainContext, MainnetEvm,
+    handler::{EthFrame, MainnetContext},
+    interpreter::interpreter::EthInterpreter,
+};
+use revm_context::{
+    ContextSetters, Journal, JournalEntry, TxEnv, journaled_state::JournalCheckpoint,
+    result::EVMError,
+};
+use revm_database::EmptyDB;
+use revm_primitives::{Address, U256};
+use std::sync::Arc;
+
+/// The production `ReservePlanner` (lazy sender index + per-account suffix sums).
+pub struct PlannerV(ReservePlanner);
+
+impl PlannerV {
+    pub fn new(txs: Arc<Vec<TxEnv>>) -> Self {
+        Self(ReservePlanner::new(txs))
+    }
+
+    pub fn required_after(&self, txid: usize, address: Address) -> U256 {
+        self.0.required_after(txid, address)
+    }
+}
+
+/// `ReserveJournalExt::delegated_debits_since` as `(address, balance_before, final_balance)`.
+pub fn delegated_debits_since<DB: Database>(
+    journal: &Journal<DB>,
+    checkpoint: JournalCheckpoint,
+    tx: &TxEnv,
+) -> Vec<(Address, U256, U256)> {
+    journal
+        .delegated_debits_since(checkpoint, tx)
+        .into_iter()
+        .map(|debit| (debit.address, debit.balance_before, debit.final_balance))
+        .collect()
+}
+
+/// The private reverse walk `balance_before_entry`.
+pub fn balance_before_entry(
+    entries: &[JournalEntry],
+    entry_index: usize,
+    address: Address,
+    final_balance: U256,
+) -> U256 {
+    crate::delegated_safety::verif_balance_before_entry(entries, entry_index, address, final_balance)
+}
+
+/// A mainnet EVM over an empty database whose journal the driver fills directly, for calling the
+/// production `WithReserveHandler::has_reserve_violation`.
+pub struct RuleV {
+    evm: MainnetEvm<MainnetContext<EmptyDB>>,
+}
+
+impl RuleV {
+    pub fn new() -> Self {
+        Self { evm: Context::mainnet().with_db(EmptyDB::default()).build_mainnet() }
+    }
+
+    pub fn journal_mut(&mut self) -> &mut Journal<EmptyDB> {
+        &mut self.evm.ctx.journaled_state
+    }
+
+    pub fn journal(&self) -> &Journal<EmptyDB> {
+        &self.evm.ctx.journaled_state
+    }
+
+    pub fn has_reserve_violation(
+        &mut self,
+        tx: TxEnv,
+        txid: usize,
+        planner: &PlannerV,
+        checkpoint: JournalCheckpoint,
+    ) -> bool {
+        self.evm.ctx.set_tx(tx);
+        crate::delegated_safety::verif_has_reserve_violation::<
+            _,
+            EVMError<core::convert::Infallible>,
+            EthFrame<EthInterpreter>,
+        >(&mut self.evm, txid, &planner.0, checkpoint)
+        .expect("has_reserve_violation does not fail")
+    }
+}
